@@ -120,7 +120,10 @@ def div_tau(v, w, tau):
     return Arr(rec(A.data))
 
 
-def evaluate_side(mod, name, tau, fn=None, oracle=None):
+def evaluate_side(mod, name, tau, fn=None, oracle=None, whole=0):
+    """whole=0: callees of the pinned API are opaque values at their signature weight (modular comparison);
+    whole=k: callees nested less than k deep are evaluated too (the comparison of last resort before two results are called
+    different)"""
     params, ret = SIG[name]
     args = [scaled_arg(p, shp, w, tau) for (p, shp, w) in params]
     calls = []
@@ -147,7 +150,21 @@ def evaluate_side(mod, name, tau, fn=None, oracle=None):
         key = "%s(%s)" % (cname, ";".join(norm))
         calls.append(key)
         return make_ret(cret, key, tau)
-    ev = Evaluator(mod, inline=set(), call_policy=pol, branch_policy=N.skip_checks_policy, sign_policy=oracle)
+    depth = [0]
+
+    def pol_deep(cname, cargs, ckw, node):
+        # callees nested less than `whole` deep are evaluated, the ones below stay opaque at their signature weight
+        if depth[0] >= whole or cname not in ev.mod.functions:
+            r_ = pol(cname, cargs, ckw, node)
+            if r_ is not NotImplemented:
+                OPAQUE_LEFT[0] = True
+            return r_
+        depth[0] += 1
+        try:
+            return ev._call_fn(ev.mod.func(cname), list(cargs), dict(ckw))
+        finally:
+            depth[0] -= 1
+    ev = Evaluator(mod, inline=set(), call_policy=pol_deep if whole else pol, branch_policy=N.skip_checks_policy, sign_policy=oracle)
     if oracle is not None:
         # `quantity < small literal`: a two-way question per (quantity, literal), shared by both modules
         ev.threshold_policy = lambda q, t, node: oracle.band(q, Fraction(t), node)
@@ -211,10 +228,66 @@ def ret_weights(struct):
 
 
 def semantic_compare(ctx, name, tmod, lmod, lfn=None):
-    """-> list of (key suffix, ok, message)"""
+    """-> list of (key suffix, ok, message).  The modular comparison (callees opaque) is sufficient, not necessary: two
+    modules may reach the same value through different callees (a closed form here, inv(form_a_mat()) there).  Before a
+    difference is reported the pair is compared once more with every callee evaluated; only a difference that is still there
+    is a difference of behaviour.  The modular messages are kept (they name the call site)."""
+    from xfabsa import poly
+    res = _semantic_compare(ctx, name, tmod, lmod, lfn, whole=0)
+    if all(ok for _s, ok, _m in res):
+        return res
+    why, confirmed = None, 0
+    for deep in (1, 2, 3):
+        try:
+            with poly.work_limit(WHOLE_WORK):
+                res2 = _semantic_compare(ctx, name, tmod, lmod, lfn, whole=deep)
+        except poly.WorkLimit:
+            why = "normal forms beyond the work limit with callees evaluated %d deep" % deep
+            break
+        except AnalysisError as e:
+            why = str(e)
+            break
+        if all(ok for _s, ok, _m in res2):
+            return [("result", True, "equal up to tau^w with the callees evaluated %d deep (with opaque callees: %s)"
+                     % (deep, "; ".join(s_ for s_, ok_, _m in res if not ok_)[:200]))]
+        confirmed = deep
+        if not OPAQUE_LEFT[0]:
+            break              # every callee was evaluated: this comparison is the whole one
+    only_arguments = all(ok_ or s_.startswith("call:") for s_, ok_, _m in res)
+    if not confirmed and only_arguments:
+        # same callees in the same order, one of them handed another argument: that is a difference wherever the callee depends
+        # on its argument; it stands although the deeper comparison is out of reach
+        return [(s_, ok_, m_ if ok_ else m_ + " [not refined: %s]" % why) for s_, ok_, m_ in res]
+    if not confirmed:
+        raise AnalysisError("siblings %s differ with their callees opaque (%s) and cannot be compared with the callees evaluated: %s"
+                            % (name, "; ".join("%s: %s" % (s_, m_[:120]) for s_, ok_, m_ in res if not ok_)[:400], why))
+    # the difference is still there with the callees evaluated `confirmed` deep (deeper levels are beyond the work limit)
+    return [(s_, ok_, m_ if ok_ else m_ + " [still different with the callees evaluated %d deep]" % confirmed) for s_, ok_, m_ in res]
+
+
+_DOMAIN = []
+
+
+def CELL_DOMAIN():
+    """the property quantifies over the input spaces of C01-C13: a cell parameter is a geometrically valid cell, so the signs of
+    its edges, of the sines of its angles and of its volume root are facts, not cases"""
+    if not _DOMAIN:
+        _DOMAIN.append(N.domain_sign_policy(N.cell_positive_atoms("unit_cell")))
+    return _DOMAIN[0]
+
+
+WHOLE_WORK = 8_000_000         # monomial products allowed to one deeper comparison of one sibling pair
+
+
+OPAQUE_LEFT = [False]        # did the last deeper comparison still meet a callee it kept opaque?
+
+
+def _semantic_compare(ctx, name, tmod, lmod, lfn=None, whole=0):
     tau = N.tau_of(True)
-    paths = enumerate_signs(lambda o: (evaluate_side(tmod, name, tau, oracle=o),
-                                       evaluate_side(lmod, name, Rat.const(1), fn=lfn, oracle=o)), max_paths=243)
+    OPAQUE_LEFT[0] = False
+    paths = enumerate_signs(lambda o: (evaluate_side(tmod, name, tau, oracle=o, whole=whole),
+                                       evaluate_side(lmod, name, Rat.const(1), fn=lfn, oracle=o, whole=whole)),
+                            max_paths=243 if not whole else 6561, fixed=CELL_DOMAIN())
     if len(paths) == 1:
         (tout, tcalls), (lout, lcalls) = paths[0][1]
         return compare_outcomes(name, tau, tout, tcalls, lout, lcalls)
@@ -516,6 +589,8 @@ def run(ctx):
         raise AnalysisError(" ;; ".join(undecided))
     ctx.assumptions += ["signature table of tau-weights (xfabsa/signatures.py) is the documented convention",
                         "numpy operators are deterministic functions of their arguments"]
+    from xfabsa import numeric as _NH
+    _NH.hazard_rule(ctx, 'C14')
     return ("All 41 sibling pairs compared: %(identical)d by identical normalised trees, %(semantic)d by E3 "
             "normal-form equality up to the tau-weight of the signature table with callees opaque at their "
             "signature weight (induction over the call graph); laue's three rescaling preambles checked by E3."
